@@ -5,548 +5,40 @@ schedule with fault kinds preempt, user_abort, reenter, scramble, gc, name_reuse
 Oracle: every operation's outcome fingerprint equals the fingerprint of the same operation
 executed alone in fresh modules compiled from the same descriptions.
 """
-import gc
 import json
-import threading
 
-from simkit import mon, rng as rngm, spec, universe as U
+from simkit import rng as rngm, universe as U
+from engines import common as C
+from engines.common import flatten_records, static_chains
 
 PROP = 'C18'
-KINDS = ['preempt', 'user_abort', 'reenter', 'scramble', 'gc', 'name_reuse', 'ctor_fail', 'compile']
 
 
-# ------------------------------------------------------------------------------- generation
-
-class ModInfo:
-    """Generator-side knowledge about one module of the universe (not part of the plan)."""
-
-    def __init__(self, id, name, extends, spec_, gen, parent=None):
-        self.id = id
-        self.name = name
-        self.extends = extends
-        self.spec = spec_
-        self.gen = gen
-        self.parent = parent
-        self.desc = spec.render_module(spec_, name, parent.name if parent else None)
-        self.chain = (parent.chain if parent else ()) + (self.desc,)
-        # effective rules
-        self.rules = dict(parent.rules) if parent else {}
-        self.super_rules = dict(parent.rules) if parent else {}
-        own = []
-        for it in spec_['items']:
-            if it['k'] in ('rule', 'class'):
-                self.rules[it['name']] = it
-                if not it.get('ignore') and not it.get('params'):
-                    own.append(it)
-        self.own = own
-        gaps = list(parent.gaps) if parent else []
-        for it in spec_['items']:
-            if it['k'] == 'ignore' or it.get('ignore'):
-                gaps += spec.IGNORE_SAMPLES.get(it['expr'][1], [])
-        self.gaps = gaps
-        first = [it for it in spec_['items'] if it['k'] in ('rule', 'class')]
-        if 'start' in self.rules:
-            self.start = self.rules['start']
-        elif parent is not None:
-            self.start = parent.start
-        else:
-            self.start = first[0]
-        self.alphabet = sorted(set(''.join(gen.lits)) | set('ab1 ')) + (['\n'] if any('\n' in g for g in gaps) else [])
-        self.texts = []
-
-    def plan_entry(self):
-        return {'id': self.id, 'name': self.name, 'extends': self.extends, 'desc': self.desc}
-
-
-def gen_universe(r):
-    infos = []
-    n_extra = r.choice([0, 0, 1, 1, 2])
-    named0 = r.random() < 0.75
-    s0, g0 = spec.gen_root(r, named0)
-    m0 = ModInfo(0, U.PREFIX + 'g0' if named0 else None, None, s0, g0)
-    infos.append(m0)
-    if named0 and r.random() < 0.55:
-        s1, g1 = spec.gen_child(r, g0, ignore=r.choice([None, None, None, 'named']))
-        m1 = ModInfo(1, U.PREFIX + 'g1', 0, s1, g1, parent=m0)
-        infos.append(m1)
-        if r.random() < 0.35:
-            s2, g2 = spec.gen_child(r, g1)
-            infos.append(ModInfo(2, U.PREFIX + 'g2', 1, s2, g2, parent=m1))
-    for _ in range(n_extra):
-        if len(infos) >= 4:
-            break
-        i = len(infos)
-        named = r.random() < 0.5
-        s, g = spec.gen_root(r, named, n_rules=r.randint(2, 5))
-        infos.append(ModInfo(i, U.PREFIX + 'g%d' % i if named else None, None, s, g))
-    # drop modules whose chain does not compile (both sides of the oracle would agree on the
-    # failure and the run would explore nothing)
-    good = []
-    bad = set()
-    for m in infos:
-        if m.extends in bad:
-            bad.add(m.id)
-            continue
-        codes = U.chain_codes(m.chain)
-        if isinstance(codes, tuple):
-            bad.add(m.id)
-            continue
-        good.append(m)
-    return good
-
-
-def make_texts(r, m, n=3):
-    sm = spec.Sampler(r, m.rules, m.super_rules)
-    out = []
-    for _ in range(n):
-        toks = sm.item(m.start, 0)
-        t = spec.join_tokens(r, toks, m.gaps)
-        if len(t) > 60:
-            t = t[:60]
-        out.append(t)
-    # one longer, multi-line text now and then: reaches the excerpt code on error paths
-    if m.gaps and r.random() < 0.2:
-        toks = []
-        for _ in range(8):
-            toks += sm.item(m.start, 0)
-        out.append(spec.join_tokens(r, toks, m.gaps + ['\n'])[:400])
-    fam = []
-    for t in out:
-        fam.append(t)
-        fam.append(spec.collide(r, t, m.alphabet, m.gaps))
-        if r.random() < 0.5:
-            fam.append(spec.collide(r, t, m.alphabet, m.gaps))
-        if r.random() < 0.5:
-            fam.append(spec.mutate_text(r, t, m.alphabet))
-    return fam
-
-
-RUNS_PER_UNIVERSE = 6
-
-
-class Planner:
-    def __init__(self, seed, useed=None):
-        self.seed = seed
-        self.useed = seed if useed is None else useed
-        self.ur = rngm.stream(self.useed, 'universe')
-        self.tr = rngm.stream(self.useed, 'texts')
-        self.wr = rngm.stream(seed, 'workload')
-        self.fr = rngm.stream(seed, 'faults')
-        self.sr = rngm.stream(seed, 'schedule')
-        self.refs = {}
-        self.infos = {}
-        self.chains = {}
-
-    def ref(self, op):
-        chain = self.chains[op['mod']]
-        key = (chain, U.op_key(op))
-        hit = self.refs.get(key)
-        if hit is None:
-            hit = self.refs[key] = U.reference_outcome(chain, U.strip_nests(op))
-        return hit
-
-    def gen_parse(self, mid, kinds, depth=0):
-        wr, fr = self.wr, self.fr
-        m = self.infos[mid]
-        text = wr.choice(m.texts)
-        entry = 'parse'
-        if m.own and wr.random() < 0.3:
-            it = wr.choice(m.own)
-            entry = ('class:' if it['k'] == 'class' else 'rule:') + it['name']
-        pos = 0
-        if text and wr.random() < 0.2:
-            pos = wr.randrange(0, min(len(text), 6))
-        full = wr.random() < 0.8
-        op = {'op': 'parse', 'mod': mid, 'entry': entry, 'text': text, 'pos': pos, 'full': full}
-        rec = self.ref(op)
-        fired = rec['fired']
-        steps = rec['steps']
-        script = {}
-        terminated = rec['out'].get('err') != 'nontermination'
-        if fired and terminated:
-            if 'user_abort' in kinds and fr.random() < 0.25:
-                tag, p, _ = fr.choice(fired)
-                script['%s@%s' % (tag, p)] = 'abort'
-            if 'reenter' in kinds and depth < 2 and fr.random() < 0.35:
-                tag, p, _ = fr.choice(fired)
-                key = '%s@%s' % (tag, p)
-                if key not in script:
-                    # nested parse: usually the same module, a colliding text
-                    nmid = mid if fr.random() < 0.7 else fr.choice(sorted(self.infos))
-                    sub = self.gen_parse(nmid, kinds, depth + 1)
-                    script[key] = {'nest': sub}
-                    steps += sub.get('_steps', 0)
-            preds = [f for f in fired if f[2] == 'p']
-            if preds and fr.random() < 0.15:
-                tag, p, _ = fr.choice(preds)
-                key = '%s@%s' % (tag, p)
-                if key not in script:
-                    script[key] = 'false'
-        if script:
-            op['script'] = script
-            rec2 = self.ref(op)
-            steps += rec2['steps']
-        if terminated:
-            op['budget'] = min(U.SIM_BUDGET_CAP, 200 * steps + 100_000)
-        else:
-            op['budget'] = U.REF_BUDGET
-        op['_steps'] = steps
-        return op
-
-    def gen_compile(self, kinds, next_id, forbidden_names, client_names):
-        """A Grammar() construction as an operation of a client."""
-        r = self.wr
-        # a module whose name (or an ancestor's name) has been re-bound can still be parsed with,
-        # but is not extended any more: Grammar() re-reads every ancestor *by name*, so such a
-        # child would be wired half to the old and half to the new ancestor (DESIGN 4.1 bound)
-        def names_of(m):
-            out = set()
-            while m is not None:
-                out.add(m.name)
-                m = m.parent
-            return out
-
-        def stale(m):
-            while m is not None:
-                if getattr(m, 'shadowed', False):
-                    return True
-                m = m.parent
-            return False
-        usable = [m for m in self.infos.values() if m.name and not stale(m)
-                  and getattr(m, 'owner', client_names) == client_names]
-        parents = [m for m in usable if not (names_of(m) & forbidden_names)]
-        victims = [m for m in usable if m.name not in forbidden_names and m.parent is None]
-        named_roots = parents
-        choice = r.random()
-        if named_roots and choice < 0.35:
-            parent = r.choice(sorted(named_roots, key=lambda m: m.id))
-            s, g = spec.gen_child(r, parent.gen)
-            info = ModInfo(next_id, U.PREFIX + 'g%d' % next_id, parent.id, s, g, parent=parent)
-        elif victims and 'name_reuse' in kinds and choice < 0.6:
-            victim = r.choice(sorted(victims, key=lambda m: m.id))
-            s, g = spec.gen_root(r, True, n_rules=r.randint(2, 4))
-            info = ModInfo(next_id, victim.name, None, s, g)
-            info.victim = victim
-        else:
-            named = r.random() < 0.6
-            s, g = spec.gen_root(r, named, n_rules=r.randint(2, 4))
-            info = ModInfo(next_id, U.PREFIX + 'g%d' % next_id if named else None, None, s, g)
-        op = {'op': 'compile', 'mod': next_id, 'desc': info.desc, 'name': info.name, 'extends': info.extends}
-        if 'ctor_fail' in kinds and r.random() < 0.25:
-            # a construction that fails half-way: a Python section that raises at exec time
-            info.spec['items'].append({'k': 'py', 'code': 'raise RuntimeError("ctor_fail")'})
-            info.desc = spec.render_module(info.spec, info.name, info.parent.name if info.parent else None)
-            info.chain = (info.parent.chain if info.parent else ()) + (info.desc,)
-            op['desc'] = info.desc
-            op['fails'] = True
-        return op, info
-
-    def plan(self, index, verif_seed):
-        ur, wr, fr, sr = self.ur, self.wr, self.fr, self.sr
-        infos = gen_universe(ur)
-        if not infos:
-            return None
-        for m in infos:
-            self.infos[m.id] = m
-            self.chains[m.id] = m.chain
-            m.texts = make_texts(self.tr, m)
-        baseline = fr.random() < 0.08
-        if baseline:
-            kinds = []
-            n_clients = 1
-        else:
-            kinds = [k for k in KINDS if fr.random() < 0.7]
-            n_clients = wr.choice([1, 2, 2, 3, 3, 4])
-        hot = wr.choice(sorted(self.infos))
-        clients = []
-        next_id = max(self.infos) + 1
-        # names (re)defined by compile operations, per client, to keep the one documented bound:
-        # a name is never re-bound while another client's compile extends that same name
-        defined_by = {}
-        extended_by = {}
-        for ci in range(n_clients):
-            ops = []
-            n_ops = wr.randint(1, 6)
-            for _ in range(n_ops):
-                x = wr.random()
-                live = sorted(self.infos)
-                if 'compile' in kinds and x < 0.12 and next_id < 9:
-                    forbidden = set()
-                    for cj, names in extended_by.items():
-                        if cj != ci:
-                            forbidden |= names
-                    for cj, names in defined_by.items():
-                        if cj != ci:
-                            forbidden |= names
-                    op, info = self.gen_compile(kinds, next_id, forbidden, ci)
-                    # the child's parent name must not be re-bound by another client
-                    anc = info.parent
-                    while anc is not None:
-                        extended_by.setdefault(ci, set()).add(anc.name)
-                        anc = anc.parent
-                    if info.name:
-                        defined_by.setdefault(ci, set()).add(info.name)
-                    ok = not isinstance(U.chain_codes(info.chain), tuple)
-                    if op.get('fails') or not ok:
-                        op['fails'] = True
-                    ops.append(op)
-                    self.chains[next_id] = info.chain
-                    if ok and not op.get('fails'):
-                        if getattr(info, 'victim', None) is not None:
-                            info.victim.shadowed = True
-                        info.texts = make_texts(wr, info, n=2)
-                        info.owner = ci
-                        self.infos[next_id] = info
-                    next_id += 1
-                    continue
-                if 'scramble' in kinds and x < 0.2 and ops and ops[-1]['op'] == 'parse':
-                    ops.append({'op': 'scramble'})
-                    continue
-                if 'gc' in kinds and x < 0.25:
-                    ops.append({'op': 'gc'})
-                    continue
-                # a parse: mostly on the hot module so that calls collide
-                cands = [i for i in live if getattr(self.infos[i], 'owner', ci) == ci]
-                mid = hot if (hot in cands and wr.random() < 0.65) else wr.choice(cands)
-                ops.append(self.gen_parse(mid, kinds))
-            clients.append(ops)
-        probes = []
-        for mid in sorted(self.infos):
-            m = self.infos[mid]
-            for t in m.texts[:2]:
-                probes.append({'op': 'parse', 'mod': mid, 'entry': 'parse', 'text': t, 'pos': 0, 'full': True})
-        expected = sum(op.get('_steps', 0) for ops in clients for op in ops) + 1
-        if n_clients == 1 or 'preempt' not in kinds:
-            pol = {'kind': 'sequential'} if (n_clients == 1 or sr.random() < 0.5) else {'kind': 'op-interleave'}
-        else:
-            x = sr.random()
-            if x < 0.05:
-                pol = {'kind': 'sequential'}
-            elif x < 0.2:
-                pol = {'kind': 'op-interleave'}
-            elif x < 0.55:
-                pol = {'kind': 'bernoulli', 'p': sr.choice([1e-3, 1e-2, 1e-2, 1e-1])}
-            elif x < 0.75:
-                pol = {'kind': 'pct', 'd': sr.choice([1, 2, 3]), 'expected': expected}
-            else:
-                pol = {'kind': 'targeted', 'q': sr.choice([0.02, 0.1, 0.3])}
-        pol['seed'] = rngm.derive('policy', self.seed)
-        watch_lib = any(op['op'] == 'compile' for ops in clients for op in ops)
-        return {
-            'prop': PROP, 'verif_seed': verif_seed, 'index': index, 'run_seed': self.seed,
-            'universe': [m.plan_entry() for m in infos],
-            'clients': clients, 'probes': probes, 'policy': pol, 'kinds': kinds,
-            'baseline': baseline, 'watch_library': watch_lib,
-            # the first run on a universe builds it with the real Grammar(); the others exec the
-            # code generated by an earlier real Grammar() call for the same description
-            'setup': 'grammar' if index % RUNS_PER_UNIVERSE == 0 else 'exec',
-        }
-
-
-def make_policy(pol, schedule=None):
-    if schedule is not None:
-        return mon.Replay(schedule['switches'], schedule.get('first'))
-    import random
-    r = random.Random(pol.get('seed', 0))
-    k = pol['kind']
-    if k == 'sequential':
-        return mon.Sequential()
-    if k == 'op-interleave':
-        return mon.OpInterleave(r)
-    if k == 'bernoulli':
-        return mon.Bernoulli(r, pol['p'])
-    if k == 'pct':
-        return mon.PCT(r, pol['d'], pol['expected'])
-    if k == 'targeted':
-        return mon.Targeted(r, pol['q'])
-    raise ValueError(k)
-
-
-# ------------------------------------------------------------------------------- execution
-
-def static_chains(plan):
-    """mod id -> chain of descriptions, from the plan alone (universe + compile operations)."""
-    chains = {}
-    for m in plan['universe']:
-        chains[m['id']] = (chains[m['extends']] if m['extends'] is not None else ()) + (m['desc'],)
-    # compile operations are resolved in client order; ids are unique
-    pending = [op for ops in plan['clients'] for op in ops if op['op'] == 'compile']
-    for _ in range(len(pending) + 1):
-        for op in pending:
-            if op['mod'] in chains:
-                continue
-            if op.get('extends') is None:
-                chains[op['mod']] = (op['desc'],)
-            elif op['extends'] in chains:
-                chains[op['mod']] = chains[op['extends']] + (op['desc'],)
-    return chains
-
-
-def _client_body(env, t, ops, out):
-    ctx = U.ExecCtx(env, t)
-    ident = threading.get_ident()
-    U._CTX[ident] = ctx
-    try:
-        for i, op in enumerate(ops):
-            env.sim.boundary(t, '%d:%s' % (i, op['op']))
-            out.append(U.run_op(env, ctx, op))
-    finally:
-        U._CTX.pop(ident, None)
-
-
-def flatten_records(op, rec, where, acc):
-    """(where, op, record) for an operation and, recursively, its nested operations."""
-    acc.append((where, op, rec))
-    sc = op.get('script') or {}
-    for sub in rec.get('nested', []):
-        key = sub['path'][-1] if sub.get('path') else None
-        act = sc.get(key)
-        if isinstance(act, dict) and 'nest' in act:
-            flatten_records(act['nest'], sub, where + [key], acc)
-
-
-def execute(plan, schedule=None, refs=None, wall_timeout=120.0):
-    """Run the plan under the simulator and judge it.  Returns a result dict."""
-    refs = {} if refs is None else refs
-    U.purge_registry()
-    gc_was = gc.isenabled()
-    gc.disable()
-    env = U.Env('sim')
-    result = {'violations': [], 'harness': None}
-    try:
-        chains = static_chains(plan)
-        for m in plan['universe']:
-            try:
-                if plan.get('setup') == 'exec':
-                    mod = U.exec_module(chains[m['id']])
-                else:
-                    mod = U.compile_desc(m['desc'])
-            except Exception as e:
-                mod = None
-                result.setdefault('setup_errors', []).append([m['id'], type(e).__name__, str(e)[:200]])
-            env.handles[m['id']] = U.Handle(m['id'], mod, chains[m['id']], m['name'])
-        policy = make_policy(plan['policy'], schedule)
-        sim = mon.Sim(policy)
-        env.sim = sim
-        env.policy = policy
-        records = [[] for _ in plan['clients']]
-        for ci, ops in enumerate(plan['clients']):
-            sim.spawn(lambda t, ops=ops, ci=ci: _client_body(env, t, ops, records[ci]))
-        lib = plan.get('watch_library')
-        if lib:
-            mon.watch(mon.library_codes())
-        try:
-            sim.run(wall_timeout)
-        finally:
-            if lib:
-                mon.unwatch(mon.library_codes())
-        env.policy = None
-        probe_records = U.run_inline(env, lambda ctx: [U.run_op(env, ctx, op) for op in plan['probes']])
-        # ---- judge
-        flat = []
-        for ci, ops in enumerate(plan['clients']):
-            for oi, (op, rec) in enumerate(zip(ops, records[ci])):
-                flatten_records(op, rec, ['client', ci, oi], flat)
-        for pi, (op, rec) in enumerate(zip(plan['probes'], probe_records)):
-            flatten_records(op, rec, ['probe', pi], flat)
-        judged = 0
-        mismatches = []
-        for where, op, rec in flat:
-            if op['op'] == 'parse':
-                if rec['out'].get('skipped'):
-                    continue
-                chain = chains.get(op['mod'])
-                if chain is None:
-                    continue
-                key = (chain, U.op_key(op))
-                ref = refs.get(key)
-                if ref is None:
-                    ref = refs[key] = U.reference_outcome(chain, U.strip_nests(op))
-                judged += 1
-                if rec['out'] != ref['out']:
-                    mismatches.append((where, op, rec, ref, chain))
-                elif rec['fired'] != ref['fired'] and not rec.get('nested'):
-                    env.count('callback_sequence_differs')
-            elif op['op'] == 'compile':
-                parent_chain = chains.get(op['extends'], ()) if op.get('extends') is not None else ()
-                key = (parent_chain, 'compile', op['desc'])
-                ref = refs.get(key)
-                if ref is None:
-                    ref = refs[key] = U.reference_compile(parent_chain, op)
-                # not a verdict: C18 speaks of parse calls and of existing modules; what a
-                # construction itself returns under interleaving is recorded as a probe only
-                if ('compiled' in rec['out']) != ('compiled' in ref['out']):
-                    env.count('construction_outcome_differs')
-        for where, op, rec, ref, chain in mismatches:
-            # confirm against the definitive reference: fresh modules from the real Grammar()
-            if op['op'] == 'parse':
-                dref = U.reference_outcome(chain, U.strip_nests(op), definitive=True)
-                if dref['out'] == rec['out']:
-                    env.count('fastref_disagreement')
-                    continue
-                ref = dref
-            result['violations'].append({
-                'check': 'isolation', 'where': where, 'op': U.strip_nests(op),
-                'sim': rec['out'], 'ref': ref['out']})
-        result['judged'] = judged
-        result['records'] = records
-        result['probe_records'] = probe_records
-        result['schedule'] = {'first': getattr(sim, 'first_id', None), 'switches': sim.switches}
-        result['steps'] = sim.step
-        result['switches'] = sum(1 for s in sim.switches if s[1] != -1)
-        if result['switches']:
-            env.count('preempt', result['switches'])
-        result['counters'] = dict(env.counters)
-        result['sig'] = rngm.digest([list(x) for x in sim.sig])
-        result['log_digest'] = rngm.digest([_norm_log(sim.log), _outs(records), _outs([probe_records])])
-        result['overlaps'] = len({(a, b) for a, b, *_ in ()})
-    except mon.HarnessError as e:
-        result['harness'] = repr(e)
-    finally:
-        U.purge_registry()
-        env.handles.clear()
-        env.last_raw.clear()
-        gc.collect()
-        if gc_was:
-            gc.enable()
-    return result
-
-
-def _norm_log(log):
-    from simkit.fp import norm_text
-    return [[norm_text(x) if isinstance(x, str) else x for x in e] for e in log]
-
-
-def _outs(records):
-    return [[[r['out'], r['fired'], r['steps'], _outs([r.get('nested', [])])] for r in recs] for recs in records]
-
-
-def strip_private(plan):
-    """The plan as written to replay files (generator-private keys removed)."""
-    def clean(op):
-        out = {k: v for k, v in op.items() if not k.startswith('_')}
-        if 'script' in out:
-            out['script'] = {k: ({'nest': clean(v['nest'])} if isinstance(v, dict) and 'nest' in v else v)
-                             for k, v in out['script'].items()}
-        return out
-    p = dict(plan)
-    p['clients'] = [[clean(op) for op in ops] for ops in plan['clients']]
-    p['probes'] = [clean(op) for op in plan['probes']]
-    return p
+def execute(plan, schedule=None, refs=None):
+    res = C.simulate(plan, schedule)
+    if res.get('harness'):
+        return res
+    res['violations'] = C.judge_isolation(plan, res, refs)
+    res['counters'] = dict(res['env'].counters)
+    return res
 
 
 def run_one(verif_seed, index, tier='quick'):
     seed = rngm.run_seed(verif_seed, PROP, index)
-    useed = rngm.derive('universe', verif_seed, PROP, index // RUNS_PER_UNIVERSE)
-    pl = Planner(seed, useed)
+    useed = rngm.derive('universe', verif_seed, PROP, index // C.RUNS_PER_UNIVERSE)
+    pl = C.Planner(seed, useed, PROP)
     plan = pl.plan(index, verif_seed)
     if plan is None:
         return {'index': index, 'empty': True}
-    plan = strip_private(plan)
+    plan = C.strip_private(plan)
     res = execute(plan, refs=pl.refs)
     res['index'] = index
     res['plan'] = plan
     return res
+
+
+def minimise(doc, budget_s=60):
+    return C.minimise(doc, execute, finding_key, budget_s)
 
 
 # ------------------------------------------------------------------------------- runner interface
@@ -713,92 +205,3 @@ def coverage(agg):
     }
 
 
-def minimise(doc, budget_s=60):
-    import copy
-    import time
-    from simkit.shrink import ddmin
-    deadline = time.time() + budget_s
-    want = doc['key']
-    state = {'plan': copy.deepcopy(doc['plan']), 'schedule': copy.deepcopy(doc['schedule']) or {'first': 0, 'switches': []}}
-    last = {}
-
-    def fails(plan, schedule):
-        res = execute(plan, schedule)
-        if res.get('harness'):
-            return False
-        for v in res['violations']:
-            if finding_key({'violation': v}) == want:
-                last['v'] = v
-                return True
-        return False
-
-    if not (fails(state['plan'], state['schedule']) or fails(state['plan'], state['schedule'])):
-        doc['minimise_note'] = 'recorded schedule did not reproduce inside the minimiser'
-        return doc
-    doc['confirmed_in_process'] = True
-
-    def try_plan(p, s=None):
-        s = state['schedule'] if s is None else s
-        if fails(p, s):
-            state['plan'], state['schedule'] = p, s
-            return True
-        return False
-
-    progress = True
-    while progress and time.time() < deadline:
-        progress = False
-        # 1. switches
-        sw = state['schedule']['switches']
-        if sw:
-            new = ddmin(sw, lambda c: fails(state['plan'], dict(state['schedule'], switches=c)), deadline)
-            if len(new) < len(sw):
-                state['schedule'] = dict(state['schedule'], switches=new)
-                progress = True
-        # 2. probes
-        pr = state['plan']['probes']
-        if pr:
-            new = ddmin(pr, lambda c: fails(dict(state['plan'], probes=c), state['schedule']), deadline)
-            if len(new) < len(pr):
-                state['plan'] = dict(state['plan'], probes=new)
-                progress = True
-        # 3. whole clients, then operations
-        for ci in range(len(state['plan']['clients'])):
-            ops = state['plan']['clients'][ci]
-            if not ops:
-                continue
-
-            def with_ops(c, ci=ci):
-                cl = list(state['plan']['clients'])
-                cl[ci] = c
-                return dict(state['plan'], clients=cl)
-            new = ddmin(ops, lambda c: fails(with_ops(c), state['schedule']), deadline)
-            if len(new) < len(ops):
-                state['plan'] = with_ops(new)
-                progress = True
-        # 4. script entries
-        for ci, ops in enumerate(state['plan']['clients']):
-            for oi, op in enumerate(ops):
-                for key in sorted((op.get('script') or {})):
-                    if time.time() >= deadline:
-                        break
-                    p = copy.deepcopy(state['plan'])
-                    del p['clients'][ci][oi]['script'][key]
-                    if try_plan(p):
-                        progress = True
-        # 5. texts
-        for ci, ops in enumerate(state['plan']['clients']):
-            for oi, op in enumerate(ops):
-                if op['op'] != 'parse' or len(op['text']) < 2 or time.time() >= deadline:
-                    continue
-                for cut in (len(op['text']) // 2, len(op['text']) - 1):
-                    p = copy.deepcopy(state['plan'])
-                    p['clients'][ci][oi]['text'] = op['text'][:cut]
-                    p['clients'][ci][oi].pop('script', None) if False else None
-                    if try_plan(p):
-                        progress = True
-                        break
-    fails(state['plan'], state['schedule'])
-    doc = dict(doc, plan=state['plan'], schedule=state['schedule'], minimised=True)
-    if 'v' in last:
-        doc['violation'] = last['v']
-    return doc
